@@ -50,6 +50,13 @@ def contended(draw):
         return j
 
     jobs = [job() for _ in range(draw(st.integers(2, 5)))]
+    if draw(st.integers(0, 2)) == 0:
+        r = draw(st.sampled_from(RES))
+        uniq[0] += 1
+        jobs = [["task", ["lit", ["int", 2000 + uniq[0]]], {}, {"limits": [r]}],
+                ["task", ["lit", ["int", 2100 + uniq[0]]], {}, {}],
+                ["task", ["lit", ["int", 2200 + uniq[0]]], {}, {"limits": [r]}],
+                ["task", ["lit", ["int", 2300 + uniq[0]]], {}, {"limits": {r: 1}}]] + jobs[:2]
     if draw(st.booleans()):
         jobs.append(jobs[draw(st.integers(0, len(jobs) - 1))])     # exact duplicate => CSE
     shape = draw(st.sampled_from(["list", "catch_all", "seq"]))
@@ -72,8 +79,12 @@ def cases(draw, feasible_only=False):
         cfg["r2"] = draw(st.integers(1, 2))
     if feasible_only:
         prog = clamp(prog, cfg)
-    decisions = draw(st.lists(st.integers(0, 4), max_size=40))
     fine = draw(st.booleans())
+    if fine and draw(st.booleans()):
+        # bursts: several jobs report back before the scheduler processes the next event
+        decisions = draw(st.lists(st.sampled_from([0, 1, 1, 1, 2]), max_size=40))
+    else:
+        decisions = draw(st.lists(st.integers(0, 4), max_size=40))
     # wrap so that several limited jobs are alive at once
     return {"prog": prog, "limits": cfg, "decisions": decisions, "fine": fine}
 
